@@ -47,6 +47,7 @@ void init() {
 		ApiOpts ao;
 		ao.version = (const char*[]){"FO3", "SK", "SSE", "FO4", "FO76"}[i % 5];
 		ao.segments = true;
+		ao.portedTangentBlock = i % 2 == 0;
 		ApiModel m = buildApiModel(mix(g_cfg.seed, 0xC03A00 + (uint64_t)i), i, &ao);
 		if (m.ok) addFile("api:" + m.desc, m.bytes);
 	}
